@@ -363,7 +363,7 @@ impl DeviceControl for ControlHandle {
         for block in data.chunks(MAXIMUM_WRITE_LENGTH) {
             let cmd = unwrap_or_log!(cmd::WriteMem::new(address, block));
 
-            for chunk in cmd.chunks(maximum_cmd_length as usize).unwrap() {
+            for chunk in unwrap_or_log!(cmd.chunks(maximum_cmd_length as usize)) {
                 let chunk_data_len = chunk.data_len();
                 let ack: ack::WriteMem = unwrap_or_log!(self.send_cmd(chunk));
 
